@@ -1,5 +1,6 @@
 import PvModel.Props.C04
 import PvModel.Props.C04Rel
+import PvModel.Props.C04Count
 #print axioms Pv.C04_disj_comm
 #print axioms Pv.C04_disj_comm_mem
 #print axioms Pv.C04_disj_perm_mem
@@ -13,3 +14,5 @@ import PvModel.Props.C04Rel
 #print axioms Pv.C04_rel_equiv
 #print axioms Pv.C04_rel_conj_comm
 #print axioms Pv.C04_rel_alt_comm
+#print axioms Pv.C04_tree_answer_multiset
+#print axioms Pv.C04_answers_are_paths
